@@ -103,13 +103,29 @@ def _run_one(job):
             fails = _failing(ctx, rules)
         except AnalysisError as e:
             # fail-closed: the analysis refused to give a verdict (exit 2 in the real check)
-            return {'id': mid, 'kind': kind, 'status': 'analysis-error', 'why': str(e)[:200],
+            status = 'analysis-error'
+            if kind == 'quiet':
+                try:
+                    from sa.framework import unmodelled_constructs
+                    if unmodelled_constructs(Ctx(repo=d)):
+                        status = 'withheld'
+                except Exception:
+                    pass
+            return {'id': mid, 'kind': kind, 'status': status, 'why': str(e)[:200],
                     'wall_s': round(time.time() - t0, 2)}
         new_fails = sorted(fails - set(baseline))
         if kind == 'fire':
             hit = [x for x in new_fails if x.split(':')[0] in rules]
             return {'id': mid, 'kind': kind, 'status': 'caught' if hit else 'missed', 'by': hit[:4],
                     'wall_s': round(time.time() - t0, 2)}
+        if new_fails:
+            # the real check withholds its verdict (exit 2, ANALYSIS-ERROR) when the tree uses constructs outside the
+            # modelled subset: that is a refusal, not a false alarm
+            from sa.framework import unmodelled_constructs
+            um = unmodelled_constructs(ctx)
+            if um:
+                return {'id': mid, 'kind': kind, 'status': 'withheld', 'by': new_fails[:4], 'why': um[:3],
+                        'wall_s': round(time.time() - t0, 2)}
         return {'id': mid, 'kind': kind, 'status': 'quiet' if not new_fails else 'false-alarm', 'by': new_fails[:6],
                 'wall_s': round(time.time() - t0, 2)}
     finally:
@@ -175,7 +191,8 @@ def run(rule_filter=None, jobs=None, repo=None, quiet_rules=None):
         'caught': sum(1 for r in results if r['status'] == 'caught'),
         'refused_by_analysis_error': sum(1 for r in results if r['kind'] == 'fire' and r['status'] == 'analysis-error'),
         'missed': [r['id'] for r in results if r['status'] == 'missed'],
-        'mutants_quiet': sum(1 for r in results if r['kind'] == 'quiet' and r['status'] in ('quiet', 'false-alarm', 'analysis-error')),
+        'mutants_quiet': sum(1 for r in results if r['kind'] == 'quiet' and r['status'] in ('quiet', 'false-alarm', 'analysis-error', 'withheld')),
+        'verdict_withheld': [r['id'] for r in results if r['status'] == 'withheld'],
         'quiet_ok': sum(1 for r in results if r['status'] == 'quiet'),
         'false_alarms': [(r['id'], r.get('by')) for r in results if r['status'] == 'false-alarm' or
                          (r['kind'] == 'quiet' and r['status'] == 'analysis-error')],
@@ -199,6 +216,9 @@ def run_for_property(pid, evidence_dir=None):
         print('SELFTEST-MISS %s (sensitivity gap of the checker, not a verdict about the repository)' % m)
     for m, by in s['false_alarms']:
         print('SELFTEST-FALSE-ALARM %s %s (checker defect, not a verdict about the repository)' % (m, by))
+    for m in s.get('verdict_withheld', []):
+        print('SELFTEST-WITHHELD %s (correct patch using constructs outside the modelled subset: the check refuses '
+              'with ANALYSIS-ERROR instead of giving a verdict)' % m)
     evidence_dir = evidence_dir or os.path.join(HERE, 'evidence')
     p = os.path.join(evidence_dir, pid + '.json')
     if os.path.exists(p):
@@ -216,6 +236,6 @@ if __name__ == '__main__':
     flt = sys.argv[1].split(',') if len(sys.argv) > 1 and sys.argv[1] != 'all' else None
     s = run(rule_filter=flt)
     for r in s['results']:
-        if r['status'] not in ('caught', 'quiet'):
+        if r['status'] not in ('caught', 'quiet', 'withheld'):
             print(r)
     print(json.dumps({k: v for k, v in s.items() if k != 'results'}, indent=1))
